@@ -1,5 +1,12 @@
 package main
 
+import (
+	"fmt"
+	"strings"
+
+	"golang.org/x/tools/go/ssa"
+)
+
 // Registration of the exhaustive-loop rule (A2, a2_loops.go) per property. This file sorts after all other rule files,
 // so the registry is complete when its init runs.
 
@@ -31,5 +38,152 @@ func init() {
 	if p := registry["C09"]; p != nil {
 		p.Rules = append(p.Rules, Rule{ID: "R-C03-6", Doc: "MATCH consumes only under its guards (shared with C03): inspection rules compare the real directory's hashes with the links'", Min: 4, Run: ruleC03_6})
 		p.Explanation += " (R-C03-6, shared with C03) a MATCH rule consumes an artifact only where the source and destination hash objects were compared with reflect.DeepEqual and found equal."
+	}
+}
+
+// Rules shared across properties whose clauses overlap:
+// - C02's certificate route ("chains to a root CA of the layout") rests on the pool provenance (R-C07-4) and on
+//   VerifyCertificateTrust using exactly those pools (R-C07-3);
+// - C08's "verified against the links in the step's sublayout directory" rests on the option wiring (R-C09-6): the
+//   directory handed to VerifySublayouts is the one this layout's own links were loaded from.
+func init() {
+	if p := registry["C02"]; p != nil {
+		p.Rules = append(p.Rules,
+			Rule{ID: "R-C07-4", Doc: "pool provenance (shared with C07): the root pool is never nil and fed only from layout.RootCas", Min: 8, Run: ruleC07_4},
+			Rule{ID: "R-C07-3", Doc: "VerifyCertificateTrust uses exactly the two pool parameters (shared with C07)", Min: 3, Run: ruleC07_3})
+		p.Explanation += " (R-C07-3, R-C07-4, shared with C07) the certificate route trusts only the layout's root CAs: both pools returned by LoadLayoutCertificates are non-nil on every success return (a nil root pool means the host's system roots), the root pool is fed only from layout.RootCas, and VerifyCertificateTrust sets Roots / Intermediates from its parameters."
+	}
+	if p := registry["C08"]; p != nil {
+		p.Rules = append(p.Rules, Rule{ID: "R-C09-6", Doc: "option wiring (shared with C09): VerifySublayouts gets this layout's link directory, intermediates and flags", Min: 6, Run: func(c *Ctx) {
+			for _, e := range c.entryPoints() {
+				c.optionWiring(e, c.stage(e.f, "in_toto.RunInspections"))
+			}
+		}})
+		p.Explanation += " (R-C09-6, shared with C09) in both entry points VerifySublayouts receives the directory this layout's own links were loaded from, the caller's intermediates and line-normalisation flag."
+	}
+}
+
+// - C05's "all counted links agree" presupposes that each counted sublayout was replaced by the summary of its own
+//   verification (R-C08-1, R-C08-3): a summary copied from another functionary's sublayout makes the links agree trivially;
+// - C09's inspection rules are evaluated by the same engine as step rules: queue / consumption wiring (R-C03-5) and
+//   which rule types fail (R-C03-4) are shared with C03.
+func init() {
+	if p := registry["C05"]; p != nil {
+		p.Rules = append(p.Rules,
+			Rule{ID: "R-C08-1", Doc: "every counted sublayout is verified recursively (shared with C08)", Min: 5, Run: ruleC08_1},
+			Rule{ID: "R-C08-3", Doc: "each sublayout is replaced by the summary of its own verification, under the same key (shared with C08)", Min: 2, Run: ruleC08_3})
+		p.Explanation += " (R-C08-1, R-C08-3, shared with C08) every counted link whose payload is a layout is replaced, under its own key, by the summary link of its own recursive verification: the agreement check compares what each functionary's evidence really says."
+	}
+	if p := registry["C09"]; p != nil {
+		p.Rules = append(p.Rules,
+			Rule{ID: "R-C03-5", Doc: "live queue and per-type consumption wiring of the rule engine (shared with C03)", Min: 12, Run: ruleC03_5},
+			Rule{ID: "R-C03-4", Doc: "failing rules fail, consuming rules never fail (shared with C03)", Min: 3, Run: ruleC03_4})
+		p.Explanation += " (R-C03-4, R-C03-5, shared with C03) the rule engine that evaluates the inspection rules keeps a live queue per artifact type, each rule type consumes exactly its set, and only DISALLOW / REQUIRE fail."
+	}
+}
+
+// R-C11-6: the loader hands out exactly what it decoded. Between the strict Decode and the return nothing writes into
+// the decoded Link / Layout: the legacy wrapper re-canonicalises that object to obtain the signed bytes, and the DSSE
+// wrapper hands it out as "the payload that was signed"; a loader that normalises anything (case of digests, paths,
+// defaults) makes both disagree with the file. Direct stores and calls that write through the decoded object (A4
+// effects analysis with the object as owned memory) are reported. Shared by C11, C12 and C01.
+func init() {
+	for _, id := range []string{"C11", "C12", "C01"} {
+		if p := registry[id]; p != nil {
+			p.Rules = append(p.Rules, Rule{ID: "R-C11-6", Doc: "the payload loader returns the decoded object unmodified", Min: 2, Run: ruleC11_6})
+			p.Explanation += " (R-C11-6) loadPayload returns the Link / Layout exactly as the strict decoder filled it: no store into it and no call that writes through it (A4 effects analysis) between Decode and return."
+		}
+	}
+}
+
+func ruleC11_6(c *Ctx) {
+	const R = "R-C11-6"
+	f := c.lookup("in_toto.loadPayload")
+	if f == nil {
+		c.undecided(R, "in_toto.loadPayload", "anchor", 0, "not found")
+		return
+	}
+	fn := fname(f)
+	n := 0
+	for _, dec := range allCalls(f) {
+		if calleeName(dec) != "(*encoding/json.Decoder).Decode" && calleeName(dec) != "encoding/json.Unmarshal" {
+			continue
+		}
+		args := callArgs(dec)
+		target := args[len(args)-1]
+		var al *ssa.Alloc
+		derives(target, func(v ssa.Value) bool {
+			if a, ok := v.(*ssa.Alloc); ok {
+				al = a
+				return true
+			}
+			return false
+		}, false)
+		if al == nil {
+			continue
+		}
+		ts := typeStr(al.Type())
+		if ts != "*in_toto.Link" && ts != "*in_toto.Layout" {
+			continue
+		}
+		n++
+		var bad []string
+		fromObj := func(v ssa.Value) bool {
+			if memBase(v) == ssa.Value(al) {
+				return true
+			}
+			return derives(v, func(x ssa.Value) bool { return x == ssa.Value(al) || memBase(x) == ssa.Value(al) }, false)
+		}
+		for _, b := range f.Blocks {
+			for _, in := range b.Instrs {
+				if in == ssa.Instruction(dec) || !(instrDominates(dec, in) || reaches(dec.Block(), b) && b != dec.Block()) {
+					continue
+				}
+				switch x := in.(type) {
+				case *ssa.Store:
+					if x.Addr != ssa.Value(al) && addrRoot(x.Addr) == ssa.Value(al) {
+						bad = append(bad, "store to "+short(org(x.Addr))+" at "+c.pos(x.Pos()))
+					} else if _, isAlloc := addrRoot(x.Addr).(*ssa.Alloc); !isAlloc && fromObj(x.Addr) {
+						bad = append(bad, "store through "+short(org(x.Addr))+" at "+c.pos(x.Pos()))
+					}
+				case *ssa.MapUpdate:
+					if fromObj(x.Map) {
+						bad = append(bad, "map update of "+short(org(x.Map))+" at "+c.pos(x.Pos()))
+					}
+				case ssa.CallInstruction:
+					g := x.Common().StaticCallee()
+					cargs := callArgs(x)
+					ctx := make([]pc, len(cargs))
+					tainted := false
+					for i, a := range cargs {
+						if hasRefs(a.Type()) && fromObj(a) {
+							ctx[i] = pc{isRefType(a.Type()), true}
+							tainted = true
+						}
+					}
+					if !tainted {
+						continue
+					}
+					if g == nil || g.Blocks == nil {
+						if n := calleeName(x); n == "builtin:delete" || n == "builtin:copy" {
+							bad = append(bad, n+" on the decoded object at "+c.pos(x.Pos()))
+						}
+						continue
+					}
+					if g.Pkg == nil || !strings.HasPrefix(g.Pkg.Pkg.Path(), modPath) {
+						continue
+					}
+					a4 := newA4(c.Prog)
+					for _, w := range a4.analyse(g, ctx, nil).writes {
+						bad = append(bad, fmt.Sprintf("%s writes %s at %s", calleeName(x), w.path, c.pos(w.instr.Pos())))
+					}
+				}
+			}
+		}
+		c.check(len(bad) == 0, R, fn, "decoded "+strings.TrimPrefix(ts, "*in_toto.")+" is returned as decoded", dec.Pos(), "no store into it and no call that writes through it after Decode",
+			"the loader modifies the object it decoded ("+strings.Join(bad, "; ")+"): the bytes re-canonicalised from it differ from the signed bytes, and GetPayload() of a loaded envelope is not the payload that was signed")
+	}
+	if n == 0 {
+		c.undecided(R, fn, "strict decode of Link / Layout", f.Pos(), "no Decode into a Link or Layout variable found")
 	}
 }
